@@ -112,7 +112,12 @@ fn p_action(a: &ActionType) -> String {
         ActionType::Retract { object } => format!("(retract {})", hx(object)),
         ActionType::Custom { action_type, params } => {
             let mut ks: Vec<_> = params.iter().collect();
-            ks.sort_by(|a, b| a.0.cmp(b.0));
+            // params is a HashMap keyed by the argument position ("0", "1", …): positions in numeric order (same as the string order
+            // below 11 arguments), any other key after them in string order
+            ks.sort_by(|a, b| match (a.0.parse::<u64>(), b.0.parse::<u64>()) {
+                (Ok(x), Ok(y)) if a.0.len() == x.to_string().len() && b.0.len() == y.to_string().len() => x.cmp(&y),
+                _ => a.0.cmp(b.0),
+            });
             format!(
                 "(custom {} ({}))",
                 hx(action_type),
@@ -1312,6 +1317,111 @@ fn rf_shrink_stream(stream: &str) -> &str {
     if stream.starts_with("RF:") { "G" } else { stream }
 }
 
+
+/// BIG family: files of 2..8 rules whose number of NON-EMPTY string literals (= placeholders of one parse call) is exactly `total`, for
+/// totals around every power of ten (the decimal index of a placeholder gains a digit at 10 / 100 / 1000 / 10000). The bulk sits in an
+/// `in [..]` list, in the argument list of one function-call action, in a run of Log statements, or is spread over the rules; the LAST
+/// three literals are the name, a condition value and an action value of the LAST rule (distinct bodies: a placeholder that is restored
+/// wrongly or not at all is visible in the parse result). Own random stream: the other streams keep their cases.
+fn big_family(tier: &str, out: &mut Vec<String>) {
+    let mut rng = Rng::new(0xB16C04);
+    let mut totals: Vec<usize> = vec![9, 10, 11, 12, 99, 100, 101, 102, 999, 1000, 1001, 1002, 1003];
+    // (10^4 literals: one spread case costs about a minute - not generated; the 4-digit boundary is the largest one covered)
+    let thorough = tier == "thorough";
+    let body = |i: usize| format!("s{}", i);
+    for (ti, total) in totals.iter().copied().enumerate() {
+        for shape in 0..4usize {
+            // the big cases are expensive: below 1000 every shape, from 999 on two shapes per total (rotating), from 9999 on one
+            // cost at 1000 literals (release build): call arguments 4.5 s, Log statements 15 .. 20 s, spread 1 s: the quick tier runs the
+            // spread shape for 999 / 1001 / 1003, the thorough tier every total in the spread and the call-argument shape
+            if total >= 900 && !(shape == 3 && (thorough || total % 2 == 1) || shape == 1 && thorough) {
+                continue;
+            }
+            // a long `in [..]` list is one long `when` leaf: the leaf regex is super-linear in its length (finding F-C05h, 99 elements
+            // cost 5 s): the list shape stays below 20 literals, the spread shape puts at most 3 literals into each list
+            if shape == 0 && total > 20 {
+                continue;
+            }
+            let mut next = 0usize; // literals written so far
+            let mut lit = |next: &mut usize| {
+                let l = Lit::Str(if *next % 5 == 3 { '\'' } else { '"' }, body(*next));
+                *next += 1;
+                l
+            };
+            // the last rule: quoted name + condition value + action value = 3 literals; every other rule: a quoted name (1 literal)
+            let nrules = match shape { 3 => 8usize, _ => 2 + (ti + shape) % 3 };
+            if total < nrules + 2 {
+                continue;
+            }
+            let bulk = total - 3 - (nrules - 1); // literals that are neither a rule name nor in the last rule
+            let mut rules: Vec<RuleA> = Vec::new();
+            for k in 0..nrules - 1 {
+                let mut r = base_rule(&mut rng);
+                r.cond = Cond::Atom(Atom::Cmp("User.age".into(), ">", Lit::Int(k as i64)));
+                r.name = body(next);
+                next += 1;
+                // this rule's share of the bulk
+                let share = match shape {
+                    3 => bulk / (nrules - 1) + if k < bulk % (nrules - 1) { 1 } else { 0 },
+                    _ => if k == 0 { bulk } else { 0 },
+                };
+                match shape {
+                    0 => {
+                        if share > 0 {
+                            let xs: Vec<Lit> = (0..share).map(|_| lit(&mut next)).collect();
+                            r.cond = Cond::Atom(Atom::Cmp("User.status".into(), "in", Lit::Arr(xs)));
+                        }
+                    }
+                    1 => {
+                        if share > 0 {
+                            let xs: Vec<Lit> = (0..share).map(|_| lit(&mut next)).collect();
+                            r.stmts = vec![Stmt::Call("notify_all".into(), xs)];
+                        }
+                    }
+                    2 => {
+                        let mut st: Vec<Stmt> = (0..share).map(|_| Stmt::Log(lit(&mut next))).collect();
+                        st.push(Stmt::Set("User.ok".into(), Lit::Bool(true)));
+                        r.stmts = st;
+                    }
+                    _ => {
+                        // spread: a third each as list elements / call arguments / Log + Set statements
+                        let a = (share / 3).min(3);
+                        let b = (share - a) / 2;
+                        let c = share - a - b;
+                        if a > 0 {
+                            let xs: Vec<Lit> = (0..a).map(|_| lit(&mut next)).collect();
+                            r.cond = Cond::Atom(Atom::Cmp("User.status".into(), "in", Lit::Arr(xs)));
+                        }
+                        let mut st: Vec<Stmt> = Vec::new();
+                        if b > 0 {
+                            let xs: Vec<Lit> = (0..b).map(|_| lit(&mut next)).collect();
+                            st.push(Stmt::Call("emit".into(), xs));
+                        }
+                        for j in 0..c {
+                            st.push(if j % 2 == 0 { Stmt::Log(lit(&mut next)) } else { Stmt::Set("Order.status".into(), lit(&mut next)) });
+                        }
+                        st.push(Stmt::Set("User.ok".into(), Lit::Bool(true)));
+                        r.stmts = st;
+                    }
+                }
+                rules.push(r);
+            }
+            let mut last = base_rule(&mut rng);
+            last.name = body(next);
+            next += 1;
+            last.cond = Cond::Atom(Atom::Cmp("User.tier".into(), "==", lit(&mut next)));
+            last.stmts = vec![match (ti + shape) % 3 {
+                0 => Stmt::Set("User.label".into(), lit(&mut next)),
+                1 => Stmt::Log(lit(&mut next)),
+                _ => Stmt::Call("sendEmail".into(), vec![Lit::Int(1), lit(&mut next)]),
+            }];
+            rules.push(last);
+            assert_eq!(next, total);
+            out.push(assemble("G", &rules, &mut rng, Lay((ti % 2) as u8)));
+        }
+    }
+}
+
 fn gen(rng: &mut Rng, n: usize, tier: &str) -> Vec<String> {
     let mut out = Vec::new();
     // every attribute subset in a shuffled order, plain layout, and salience extremes
@@ -1495,6 +1605,7 @@ fn gen(rng: &mut Rng, n: usize, tier: &str) -> Vec<String> {
             if stream == "G" { out.push(case) } else { meta_args.push(case) }
         }
     }
+    big_family(tier, &mut out);
     let maxdepth = if tier == "thorough" { 6 } else { 5 };
     out.extend(rf_cases(rng, n / 10 + 30, maxdepth));
     // the findings stream goes last (check.py reports the first dozen failure groups only)
@@ -1732,6 +1843,34 @@ fn main() {
     if std::env::args().nth(1).as_deref() == Some("corpus") {
         for l in corpus() {
             println!("{}", l);
+        }
+        return;
+    }
+    if std::env::args().nth(1).as_deref() == Some("bigfam") {
+        // c04 bigfam [tier] — the cases of the BIG family: `<literals> <bytes> <micros> <agree-with-abstract?>` per case (tuning aid)
+        let tier = std::env::args().nth(2).unwrap_or_else(|| "quick".into());
+        let mut v = Vec::new();
+        big_family(&tier, &mut v);
+        for c in v {
+            let t: Vec<&str> = c.split_whitespace().collect();
+            let full: String = t[1].split(',').map(|h| unhex(h).unwrap()).collect::<Vec<_>>().concat();
+            // non-empty literals as mask_string_literals counts them (the generated layouts put no quote into a comment)
+            let mut n = 0usize;
+            let mut it = full.chars();
+            while let Some(ch) = it.next() {
+                if ch == '"' || ch == '\'' {
+                    let rest = it.as_str();
+                    if let Some(end) = rest.find(|c| c == ch || c == '\n') {
+                        if rest[end..].starts_with(ch) && end > 0 {
+                            n += 1;
+                        }
+                        it = rest[end + 1..].chars();
+                    }
+                }
+            }
+            let t0 = std::time::Instant::now();
+            let o = exec(&c);
+            println!("{} {} {} {}", n, full.len(), t0.elapsed().as_micros(), &o[o.len().saturating_sub(12)..]);
         }
         return;
     }
